@@ -19,7 +19,28 @@ use std::sync::{Arc, Mutex};
 use std::time::Duration;
 
 pub const DIR: &str = "r";
-pub const OUT: &str = "r/out.hex";
+/// names the output file may bear (in `DIR`); the run picks one
+pub const OUT_NAMES: [&str; 6] = [
+    "out.hex",
+    "out.bin",
+    "puzzle.clsp.hex",
+    "out",
+    "OUT.HEX",
+    "a-rather-long-output-file-name-of-the-kind-build-systems-derive-from-hashes-0123456789abcdef0123456789abcdef0123456789abcdef.clvm.hex",
+];
+static OUT_IX: std::sync::atomic::AtomicUsize = std::sync::atomic::AtomicUsize::new(0);
+static OUT_PATHS: std::sync::OnceLock<Vec<String>> = std::sync::OnceLock::new();
+
+/// the output path of the current run, relative to the sandbox root
+pub fn out_path() -> &'static str {
+    let v = OUT_PATHS
+        .get_or_init(|| OUT_NAMES.iter().map(|n| format!("{}/{}", DIR, n)).collect());
+    &v[OUT_IX.load(std::sync::atomic::Ordering::SeqCst) % v.len()]
+}
+
+pub fn set_out(ix: usize) {
+    OUT_IX.store(ix, std::sync::atomic::Ordering::SeqCst);
+}
 
 #[derive(Serialize, Deserialize, Clone, Debug, PartialEq)]
 pub enum DataSpec {
@@ -79,7 +100,9 @@ pub struct Workload {
     #[serde(default)]
     pub ro_file: bool,
     /// every other writer names the output by another spelling: 1 absolute path,
-    /// 2 "./r/out.hex", 3 "r/../r/out.hex", 4 through a symlink to the directory
+    /// 2 "./r/out.hex", 3 "r/../r/out.hex", 4 through a symlink to the directory,
+    /// 5 the bare name "out.hex" from a process whose working directory is the output
+    /// directory (no parent component in the path)
     #[serde(default)]
     pub out_form: u8,
     /// actors are forked child processes (own statics, own pid, real death) instead of
@@ -97,6 +120,10 @@ pub struct Workload {
     /// history: permission bits of the existing output file (0 = whatever the umask gave)
     #[serde(default)]
     pub out_mode: u32,
+    /// which of OUT_NAMES the output file bears (other extensions, no extension, upper
+    /// case, a very long name)
+    #[serde(default)]
+    pub out_name: u8,
 }
 
 pub const F_SHORT: u32 = 1;
@@ -301,7 +328,7 @@ pub fn generate(rng: &mut Rng, thorough: bool) -> Workload {
         },
         stall_from: *rng.pick(&[0u16, 0, 3, 6, 10, 14]),
         ro_file: rng.chance(1, 12),
-        out_form: if rng.chance(1, 3) { rng.range(1, 4) as u8 } else { 0 },
+        out_form: if rng.chance(1, 3) { rng.range(1, 5) as u8 } else { 0 },
         // rare: in this VM every fork costs ~20 ms of time serialised across all workers
         procs: (rng.chance(1, 160) || std::env::var("DSIM_FORCE_PROCS").is_ok())
             && std::env::var("DSIM_NO_PROCS").is_err(),
@@ -309,6 +336,11 @@ pub fn generate(rng: &mut Rng, thorough: bool) -> Workload {
         extra_link: rng.chance(1, 6),
         out_mode: if rng.chance(1, 4) {
             *rng.pick(&[0o600u32, 0o755, 0o664, 0o640, 0o4755])
+        } else {
+            0
+        },
+        out_name: if rng.chance(1, 3) {
+            rng.range(1, OUT_NAMES.len() as u64 - 1) as u8
         } else {
             0
         },
@@ -358,20 +390,20 @@ pub fn setup_dir(wl: &Workload) -> Option<Vec<u8>> {
         InitialOut::Absent => {}
         InitialOut::File(d) => {
             let s = materialise(d);
-            fs::write(OUT, &s).unwrap();
+            fs::write(out_path(), &s).unwrap();
             if wl.out_mode != 0 {
                 use std::os::unix::fs::PermissionsExt;
-                let _ = fs::set_permissions(OUT, fs::Permissions::from_mode(wl.out_mode));
+                let _ = fs::set_permissions(out_path(), fs::Permissions::from_mode(wl.out_mode));
             }
             if wl.extra_link {
-                let _ = fs::hard_link(OUT, format!("{}/store-3f9a.hex", DIR));
+                let _ = fs::hard_link(out_path(), format!("{}/store-3f9a.hex", DIR));
             }
             initial = Some(s.into_bytes());
         }
         InitialOut::Symlink(d) => {
             let s = materialise(d);
             fs::write(format!("{}/real_out.hex", DIR), &s).unwrap();
-            std::os::unix::fs::symlink("real_out.hex", OUT).unwrap();
+            std::os::unix::fs::symlink("real_out.hex", out_path()).unwrap();
             initial = Some(s.into_bytes());
         }
     }
@@ -382,7 +414,7 @@ pub fn setup_dir(wl: &Workload) -> Option<Vec<u8>> {
         }
     }
     if initial.is_some() {
-        set_mtime(OUT, 500 + wl.out_mtime_rel as i64);
+        set_mtime(out_path(), 500 + wl.out_mtime_rel as i64);
         if matches!(wl.initial, InitialOut::Symlink(_)) {
             set_mtime(&format!("{}/real_out.hex", DIR), 500 + wl.out_mtime_rel as i64);
         }
@@ -436,17 +468,27 @@ fn writer_body(idx: usize, w: Writer, out_form: u8) -> Box<dyn FnOnce(&Actor) + 
             };
             // the same file under other spellings (other parent-directory handling)
             let o = match out_form {
-                1 => format!("{}/{}", seam::root(), OUT),
-                2 => format!("./{}", OUT),
-                3 => format!("{}/../{}", DIR, OUT),
-                4 => format!("r_link/{}", &OUT[DIR.len() + 1..]),
-                _ => OUT.to_string(),
+                1 => format!("{}/{}", seam::root(), out_path()),
+                2 => format!("./{}", out_path()),
+                3 => format!("{}/../{}", DIR, out_path()),
+                4 => format!("r_link/{}", &out_path()[DIR.len() + 1..]),
+                5 => out_path()[DIR.len() + 1..].to_string(),
+                _ => out_path().to_string(),
             };
             (d, o)
         };
+        if out_form == 5 {
+            let _g = seam::HarnessGuard::new();
+            *actor.cwd.borrow_mut() = DIR.to_string();
+        }
         let out: &str = &out_path;
         actor.boundary("call", &format!("{:?}", w.api));
-        let inp = input_path(idx);
+        let inp = if out_form == 5 {
+            let _g = seam::HarnessGuard::new();
+            format!("{}/{}", seam::root(), input_path(idx))
+        } else {
+            input_path(idx)
+        };
         let r: Result<(), String> = match w.api {
             Api::Atomic => chialisp::util::atomic_write_file(&inp, out, &data),
             Api::Gentle => chialisp::util::gentle_overwrite(&inp, out, &data),
@@ -484,7 +526,7 @@ fn reader_body(reads: u8) -> Box<dyn FnOnce(&Actor) + Send + 'static> {
     Box::new(move |actor: &Actor| {
         for _ in 0..reads {
             actor.boundary("rd", "");
-            let r = fs::read_to_string(OUT);
+            let r = fs::read_to_string(out_path());
             let info = {
                 let _g = seam::HarnessGuard::new();
                 match &r {
@@ -643,7 +685,7 @@ impl C19Policy {
     }
 
     fn read_out() -> Result<Option<Vec<u8>>, String> {
-        match fs::read(OUT) {
+        match fs::read(out_path()) {
             Ok(b) => Ok(Some(b)),
             Err(e) if e.kind() == std::io::ErrorKind::NotFound => Ok(None),
             Err(e) => Err(format!("{:?}", e)),
@@ -689,7 +731,7 @@ impl C19Policy {
                 self.tracks[e.actor].dead = true;
             }
             let publishes = matches!(e.kind, OpKind::Rename | OpKind::Link)
-                && e.path2 == OUT
+                && e.path2 == out_path()
                 && e.ret == 0
                 && matches!(e.action, Action::Proceed | Action::CrashAfter);
             if publishes {
@@ -729,7 +771,7 @@ impl Policy for C19Policy {
             let mut h = FNV_INIT;
             // cheap fingerprint: the directory's own mtime (changes on create / unlink /
             // rename) and the output's identity, size and mtime
-            for p in [DIR, OUT] {
+            for p in [DIR, out_path()] {
                 if let Ok(m) = fs::symlink_metadata(p) {
                     fnv1a(&mut h, &m.len().to_le_bytes());
                     fnv1a(&mut h, &m.ino().to_le_bytes());
@@ -739,7 +781,7 @@ impl Policy for C19Policy {
                     fnv1a(&mut h, b"absent");
                 }
             }
-            if let Ok(m) = fs::metadata(OUT) {
+            if let Ok(m) = fs::metadata(out_path()) {
                 fnv1a(&mut h, &m.len().to_le_bytes());
                 fnv1a(&mut h, &m.ino().to_le_bytes());
                 fnv1a(&mut h, &m.mtime_nsec().to_le_bytes());
@@ -782,7 +824,7 @@ impl Policy for C19Policy {
         if delta > 0 {
             world.advance_clock(delta);
         }
-        let out_like = op.path == OUT || op.path2 == OUT;
+        let out_like = op.path == out_path() || op.path2 == out_path();
         match op.kind {
             OpKind::Boundary | OpKind::Start | OpKind::Preempt => {
                 let label = op.path.as_str();
@@ -895,8 +937,8 @@ impl Policy for C19Policy {
         }
 
         // bookkeeping for the ENOENT clause
-        if op.kind == OpKind::OpenRead && op.path == OUT {
-            self.tracks[actor].exists_at_open = fs::metadata(OUT).is_ok();
+        if op.kind == OpKind::OpenRead && op.path == out_path() {
+            self.tracks[actor].exists_at_open = fs::metadata(out_path()).is_ok();
         }
 
         let mut action = Action::Proceed;
@@ -918,7 +960,7 @@ impl Policy for C19Policy {
         if action == Action::Proceed
             && self.wl.ro_file
             && op.kind == OpKind::OpenWrite
-            && op.path == OUT
+            && op.path == out_path()
         {
             action = Action::Fail(libc::EACCES);
             self.probes.fault("static_readonly_output_file_EACCES");
@@ -1144,7 +1186,7 @@ fn analyse(wl: &Workload, events: &[Event], initial: &Option<Vec<u8>>, probes: &
                     start = Some(i);
                 }
             }
-            let ends = (matches!(e.kind, OpKind::Rename | OpKind::Link) && e.path2 == OUT)
+            let ends = (matches!(e.kind, OpKind::Rename | OpKind::Link) && e.path2 == out_path())
                 || is_crash(&e.action);
             if ends {
                 if e.kind == OpKind::Rename && e.ret == 0 {
@@ -1206,6 +1248,8 @@ fn analyse(wl: &Workload, events: &[Event], initial: &Option<Vec<u8>>, probes: &
 }
 
 pub fn run_one(wl: &Workload, tape: &mut Tape, entropy_seed: u64) -> Result<RunReport, String> {
+    set_out(wl.out_name as usize);
+    let _ = out_path();
     let initial = setup_dir(wl);
     let n_actors = wl.writers.len() + wl.readers as usize;
     let world = seam::new_world(n_actors, true, 1_000_000_000_000);
@@ -1275,6 +1319,15 @@ pub fn run_one(wl: &Workload, tape: &mut Tape, entropy_seed: u64) -> Result<RunR
             policy.probes.hit_n("writer_through_python_binding_compile_clvm", n as u64);
         }
     }
+    if wl.out_name != 0 {
+        policy.probes.hit(&format!(
+            "output_named_{}",
+            &OUT_NAMES[wl.out_name as usize % OUT_NAMES.len()]
+                .chars()
+                .take(16)
+                .collect::<String>()
+        ));
+    }
     if wl.procs {
         policy.probes.hit("run_with_process_backed_actors");
         if wl.same_pid {
@@ -1321,6 +1374,7 @@ pub fn run_one(wl: &Workload, tape: &mut Tape, entropy_seed: u64) -> Result<RunR
             same_pid: false,
             extra_link: false,
             out_mode: 0,
+            out_name: wl.out_name,
         };
         let world2 = seam::new_world(1, true, world.now_ns());
         let mut pol2 = LivenessPolicy {};
@@ -1338,7 +1392,7 @@ pub fn run_one(wl: &Workload, tape: &mut Tape, entropy_seed: u64) -> Result<RunR
             .events
             .iter()
             .any(|e| e.kind == OpKind::Boundary && e.path == "ret" && e.path2 == "ok");
-        let cur = fs::read(OUT).ok();
+        let cur = fs::read(out_path()).ok();
         let want = materialise(&fin).into_bytes();
         let base = events.len() as u32;
         if out2.truncated || !ok_ret || cur.as_deref() != Some(&want[..]) {
@@ -1526,6 +1580,11 @@ impl Prop for C19 {
         if w.out_mtime_rel != 0 {
             let mut c = w.clone();
             c.out_mtime_rel = 0;
+            out.push(c);
+        }
+        if w.out_name != 0 {
+            let mut c = w.clone();
+            c.out_name = 0;
             out.push(c);
         }
         if w.extra_link {
